@@ -55,3 +55,52 @@ def load_program(features=()):
     prog = core.Program(txt, decls)
     prog.mir_sha = sha; prog.mir_secs = secs; prog.mir_lines = txt.count('\n'); prog.features = tuple(features)
     return prog
+
+# ---------------------------------------------------------------------------------------------- the jp command-line tool (C18)
+CLI = os.path.join(REPO, 'jmespath-cli')
+def cli_copy():
+    """a scratch copy of /repo/jmespath-cli (src + Cargo.toml, path dependency rewritten to the crate under test, own [workspace], no lock file:
+    the lock file in the repository pins crates that are not in the offline cache). Re-synchronised from /repo on every call."""
+    dst = os.path.join(os.environ.get('VERIF_SCRATCH') or '/var/tmp', 'jmverif-cli-' + hashlib.sha1(REPO.encode()).hexdigest()[:10])
+    os.makedirs(os.path.join(dst, 'src'), exist_ok=True)
+    toml = open(os.path.join(CLI, 'Cargo.toml')).read().replace('path = "../jmespath"', f'path = "{CRATE}"') + '\n[workspace]\n'
+    files = {'Cargo.toml': toml}
+    for f in os.listdir(os.path.join(CLI, 'src')): files['src/' + f] = open(os.path.join(CLI, 'src', f)).read()
+    for f, txt in files.items():
+        p = os.path.join(dst, f)
+        if not os.path.exists(p) or open(p).read() != txt: open(p, 'w').write(txt)
+    for f in os.listdir(os.path.join(dst, 'src')):
+        if 'src/' + f not in files: os.remove(os.path.join(dst, 'src', f))
+    return dst
+
+def cli_mir_text():
+    t0 = time.time(); d = cli_copy(); td = scratch_dir('jmverif-climir-')
+    try:
+        cmd = ['cargo', '+nightly', 'rustc', '--offline', '--bin', 'jp', '--', '-Zunpretty=mir', '-C', 'debug-assertions=off', '-C', 'overflow-checks=on']
+        r = subprocess.run(cmd, cwd=d, env=cargo_env({'CARGO_TARGET_DIR': os.path.join(td, 'target')}), capture_output=True, text=True)
+        if r.returncode != 0 or 'fn main' not in r.stdout:
+            sys.stderr.write(r.stderr[-4000:]); raise RuntimeError('MIR generation for jmespath-cli failed')
+        txt = r.stdout
+    finally:
+        shutil.rmtree(td, ignore_errors=True)
+    return txt, hashlib.sha256(txt.encode()).hexdigest(), time.time() - t0
+
+def cli_binary(profile='dev'):
+    """build the real jp binary (stable toolchain) from the scratch copy; returns its path"""
+    d = cli_copy()
+    cmd = ['cargo', 'build', '--offline', '--quiet'] + (['--release'] if profile == 'release' else [])
+    r = subprocess.run(cmd, cwd=d, env=cargo_env(), capture_output=True, text=True)
+    if r.returncode != 0:
+        sys.stderr.write(r.stderr[-3000:]); raise RuntimeError('jp build failed')
+    return os.path.join(d, 'target', 'debug' if profile == 'dev' else 'release', 'jp')
+
+def load_cli_program():
+    """library MIR + CLI MIR in one program (the CLI's calls into the library resolve to the library's MIR)"""
+    from mirsym import core, models  # noqa: F401
+    lib, sha1, s1 = mir_text(())
+    cli, sha2, s2 = cli_mir_text()
+    decls = core.Decls(CRATE)
+    prog = core.Program(lib + '\n' + cli, decls)
+    prog.mir_sha = hashlib.sha256((sha1 + sha2).encode()).hexdigest(); prog.mir_secs = s1 + s2; prog.mir_lines = lib.count('\n') + cli.count('\n'); prog.features = ()
+    prog.cli_fns = [l.split('(')[0][3:] for l in cli.split('\n') if l.startswith('fn ')]
+    return prog
